@@ -19,18 +19,31 @@
 //   repl    replace_and_simplify(tree, n, True|False), every node n: every node's table agrees
 //           on the assignments consistent with the replacement; a thrown RuntimeError ("logical
 //           contradiction") only if NO assignment is consistent; then on the replaced tree
-//           (the order UnitProto::build uses): post, flag, str, simplify again
+//           (the order UnitProto::build uses): post, flag, str, simplify again, and dm-aliased:
+//           transform_negated_joins on the replaced tree (it contains Aliased nodes and literal
+//           constants; trees with a double negation stay excluded) with the volume sets {}, {all
+//           alias nodes + all nodes nothing refers to}, every alias node alone, every negated
+//           surface alone: volumes keep their function on the consistent assignments, no
+//           negation of a join is left, infix of every node (signatures demorgan-aliased:*)
 //   dm      transform_negated_joins with volume sets {}, every single node, every pair, all:
 //           volumes keep their function, no negation of a join is left, then an explicit
 //           infix encoding of every node (fully parenthesised, and with the outermost
 //           parentheses omitted; tokens placed in front of a guard page) -> InfixEvaluator,
 //           post/flag/str on the new volume roots
 //
+//   chain   a second, directed lattice (see check_chains): right-nested alternating all/any chains
+//           whose postfix stack depth is 5 .. M-1 | M .. M+8 (M = LogicStack::max_stack_depth()):
+//           post/flag/str on the root for depth < M, and for every depth {surfaces, one volume
+//           with the emitted faces+logic} -> UnitInput -> OrangeParams: rejected ("logic depth")
+//           iff depth >= M, else scalars.max_logic_depth == depth and LogicEvaluator on the
+//           STORED logic reproduces the table (UnitInserter::calc_max_depth, OrangeParams limit)
+//
 // Bounds: K = 6 (quick) / 7 (thorough) effective inserts for each of two surface labellings;
 // insert transitions at every state with < K nodes.  Thorough, labelling 1: depth-7 leaves get
 // the encoder checks only.  Part "csg_asan" (thorough): K = 5 under AddressSanitizer.
 // The exploration is depth-first and sharded by the index of the depth-<=5 prefix state.
 //
+// Case ids of the chain lattice: "chain:L<lab>/depth=<d>/outer=<all|any>/neg=<0|1>".
 // Case id = the state's path, e.g. "L0/s0/s1/n2/a2.3/n5" (labelling 0; surface, surface,
 // not{2}, all{2,3}, not{5}).  --case <path> rebuilds exactly that state and runs every check
 // and every insert transition from it.
